@@ -16,6 +16,8 @@ Definition pragma_clean (h : hmap) : bool :=
 Definition opt_str_eqb (a c : option str) : bool :=
   match a, c with Some x, Some y => str_eqb x y | None, None => true | _, _ => false end.
 
+Definition no_names (l : list str) : bool := match l with [] => true | _ => false end.
+
 (* the domain of the theorem *)
 Definition wf_x (x : xin) : bool :=
   let t := parse_target (xi_target x) in
@@ -31,7 +33,9 @@ Definition wf_x (x : xin) : bool :=
   (is_empty (t_scheme t) || negb (xi_mode x =? 2)) &&
   (negb (is_empty (t_scheme t)) || is_empty (h_get k_xfp hin) || str_eqb (h_get k_xfp hin) (sent_scheme x)) &&
   (Nat.leb (length (raw_values k_ua hin)) 1) &&
-  match raw_get k_ae hin with Some (v :: _) => negb (is_empty v) | Some [] => false | None => true end.
+  match raw_get k_ae hin with Some (v :: _) => negb (is_empty v) | Some [] => false | None => true end &&
+  (* no trailers (they are forwarded and re-announced: tested end to end, not part of this theorem) *)
+  no_names (trailer_decl (xi_framing x) (fields_to_hmap (xi_fields x))) && no_names (trailer_decl (xi_framing x) hin).
 
 (* ---------- L1: what ReadRequest hands over, name by name ---------- *)
 Definition l1_hdr (x : xin) : hmap :=
@@ -52,7 +56,7 @@ Proof.
       * apply str_eqb_neq in E3. apply raw_get_del_other. exact E3.
 Qed.
 
-Lemma read_request_shape x : pragma_clean (hin_of x) = true ->
+Lemma read_request_shape x : trailer_decl (xi_framing x) (fields_to_hmap (xi_fields x)) = [] -> pragma_clean (hin_of x) = true ->
   opt_str_eqb (escaped_path (t_path (parse_target (xi_target x)))) (Some (t_path (parse_target (xi_target x)))) = true ->
   exists r, read_request x = Some (r, parse_target (xi_target x)) /\
     q_hdr r = l1_hdr x /\ q_method r = xi_method x /\ q_host r = sent_host x /\ q_scheme r = t_scheme (parse_target (xi_target x)) /\
@@ -63,7 +67,7 @@ Lemma read_request_shape x : pragma_clean (hin_of x) = true ->
                         (xi_mode x =? 2) (xi_maj x) (xi_min x) (wants_close (xi_maj x) (xi_min x) (fields_to_hmap (xi_fields x))) (l1_hdr x)))
                  ++ b "://" ++ sent_host x ++ t_path (parse_target (xi_target x)) ++ query_suffix (parse_target (xi_target x)).
 Proof.
-  intros Hp He. unfold read_request.
+  intros Htr Hp He. unfold read_request. rewrite Htr. cbn [existsb].
   destruct (escaped_path (t_path (parse_target (xi_target x)))) as [ep|] eqn:E; [|discriminate He].
   cbn [opt_str_eqb] in He. apply str_eqb_eq in He. subst ep.
   assert (P : (match raw_get k_pragma (raw_del k_host (fields_to_hmap (xi_fields x))),
@@ -83,9 +87,9 @@ Qed.
 (* ---------- L3: what the Transport writes, name by name ---------- *)
 Lemma transport_get_plain x r k :
   mem k excluded_on_write = false -> k <> k_ae -> k <> k_connection ->
-  raw_get k (transport_hdr x r) = raw_get k (q_hdr r).
+  raw_get k (transport_hdr0 x r) = raw_get k (q_hdr r).
 Proof.
-  intros Hk Hae Hc. unfold transport_hdr. cbv zeta.
+  intros Hk Hae Hc. unfold transport_hdr0. cbv zeta.
   assert (Nh : k <> k_host) by (intro; subst; discriminate Hk).
   assert (Nu : k <> k_ua) by (intro; subst; discriminate Hk).
   assert (Ncl : k <> k_cl) by (intro; subst; discriminate Hk).
@@ -99,7 +103,7 @@ Proof.
 Qed.
 
 Ltac transport_cases :=
-  unfold transport_hdr; cbv zeta;
+  unfold transport_hdr0; cbv zeta;
   repeat match goal with
   | |- context [if ?c then _ else _] => let E := fresh "C" in destruct c eqn:E
   | |- context [match raw_get k_ua ?h with _ => _ end] => let E := fresh "U" in destruct (raw_get k_ua h) as [[|? ?]|] eqn:E
@@ -113,19 +117,19 @@ Ltac through_sets :=
   repeat first [ rewrite raw_get_set_same | rewrite raw_get_set_other by discriminate ];
   rewrite ?filter_excl_get; try reflexivity.
 
-Lemma transport_host x r : raw_get k_host (transport_hdr x r) = Some [q_host r].
+Lemma transport_host x r : raw_get k_host (transport_hdr0 x r) = Some [q_host r].
 Proof. transport_cases; through_sets. Qed.
 
-Lemma transport_te x r : raw_get k_te (transport_hdr x r) = if xi_framing x =? 2 then Some [b "chunked"] else None.
+Lemma transport_te x r : raw_get k_te (transport_hdr0 x r) = if xi_framing x =? 2 then Some [b "chunked"] else None.
 Proof. transport_cases; through_sets. Qed.
 
-Lemma transport_cl x r : raw_get k_cl (transport_hdr x r) =
+Lemma transport_cl x r : raw_get k_cl (transport_hdr0 x r) =
   if xi_framing x =? 2 then None
   else if (xi_framing x =? 1) && negb (xi_blen x =? 0) then Some [itoa (xi_blen x)]
   else if mem (xi_method x) [b "POST"; b "PUT"; b "PATCH"] then Some [[48]] else None.
 Proof. transport_cases; through_sets. Qed.
 
-Lemma transport_ua x r : raw_get k_ua (transport_hdr x r) =
+Lemma transport_ua x r : raw_get k_ua (transport_hdr0 x r) =
   match raw_get k_ua (q_hdr r) with
   | Some (v :: _) => if is_empty v then None else Some [v]
   | Some [] => None
@@ -136,7 +140,7 @@ Proof. transport_cases; through_sets. Qed.
 Definition gzip_added (x : xin) (r : mreq) : bool :=
   is_empty (h_get k_ae (q_hdr r)) && is_empty (h_get k_range (q_hdr r)) && negb (str_eqb (xi_method x) (b "HEAD")).
 
-Lemma transport_ae x r : raw_get k_ae (transport_hdr x r) =
+Lemma transport_ae x r : raw_get k_ae (transport_hdr0 x r) =
   if gzip_added x r then Some (raw_values k_ae (q_hdr r) ++ [b "gzip"]) else raw_get k_ae (q_hdr r).
 Proof.
   unfold gzip_added.
@@ -146,14 +150,14 @@ Proof.
   try (f_equal; f_equal; apply V; intros k ->; through_sets).
 Qed.
 
-Lemma transport_conn x r : raw_get k_connection (transport_hdr x r) =
+Lemma transport_conn x r : raw_get k_connection (transport_hdr0 x r) =
   if q_close r && negb (has_token (raw_values k_connection (q_hdr r)) (b "close"))
   then Some (b "close" :: raw_values k_connection (q_hdr r)) else raw_get k_connection (q_hdr r).
 Proof.
   assert (V : forall h', raw_get k_connection h' = raw_get k_connection (q_hdr r) ->
               raw_values k_connection h' = raw_values k_connection (q_hdr r)).
   { intros h' H. unfold raw_values. rewrite H. reflexivity. }
-  unfold transport_hdr. cbv zeta.
+  unfold transport_hdr0. cbv zeta.
   match goal with |- context [has_token (raw_values k_connection ?h5) _] =>
     assert (E5 : raw_get k_connection h5 = raw_get k_connection (q_hdr r)) end.
   { repeat match goal with
@@ -269,6 +273,9 @@ Section E2E.
     forall k, xkey_ok x (hin_of x) (xo_hdr e) k = true.
   Proof.
     intros W H. unfold wf_x in W. cbv zeta in W.
+    apply andb_true_iff in W as [W Wtr2]. apply andb_true_iff in W as [W Wtr1].
+    assert (Tr1 : trailer_decl (xi_framing x) (fields_to_hmap (xi_fields x)) = []) by (destruct (trailer_decl _ _); [reflexivity | discriminate]).
+    assert (Tr2 : trailer_decl (xi_framing x) (hin_of x) = []) by (destruct (trailer_decl _ (hin_of x)); [reflexivity | discriminate]).
     apply andb_true_iff in W as [W Wae]. apply andb_true_iff in W as [W Wua]. apply andb_true_iff in W as [W Wxfp].
     apply andb_true_iff in W as [W Wmode2]. apply andb_true_iff in W as [W Wclf]. apply andb_true_iff in W as [W Wm].
     apply andb_true_iff in W as [W Wf]. apply andb_true_iff in W as [W Wprag]. apply andb_true_iff in W as [W Wesc].
@@ -276,7 +283,7 @@ Section E2E.
     apply andb_true_iff in W as [W Wmin]. apply andb_true_iff in W as [Wtag Wmaj].
     apply N.ltb_lt in Wmaj, Wmin. apply N.leb_le in Wf, Wm. apply negb_true_iff in Wconn.
     apply opt_str_eqb_eq in Wip2.
-    destruct (read_request_shape x Wprag Wesc) as [r0 [ER [Eh [Em [Eho [Es [Emaj [Emin [Etls [Erem [Ecl Eurl]]]]]]]]]]].
+    destruct (read_request_shape x Tr1 Wprag Wesc) as [r0 [ER [Eh [Em [Eho [Es [Emaj [Emin [Etls [Erem [Ecl Eurl]]]]]]]]]]].
     apply opt_str_eqb_eq in Wesc.
     unfold e2e_model, e2e_model_cfg in H. rewrite ER in H.
     change (handle_request_cfg no_cfg (xi_tag x) r0) with (handle_request (xi_tag x) r0) in H.
@@ -287,6 +294,9 @@ Section E2E.
     set (rf := fix_request_scheme proxy_allow_http r0) in *.
     destruct (modify_request (xi_tag x) rf) as [st|r1] eqn:EM; [discriminate|]. injection EH as EH.
     unfold transport_out in H. rewrite Wesc in H. injection H as <-. cbn [xo_method xo_target xo_framing xo_hdr].
+    assert (TH : transport_hdr x r' = transport_hdr0 x r').
+    { unfold transport_hdr. fold (hin_of x). rewrite Tr2. reflexivity. }
+    rewrite TH.
     (* facts about rf *)
     assert (Hrf : q_hdr rf = l1_hdr x) by (unfold rf; rewrite fix_scheme_hdr; exact Eh).
     destruct (fix_scheme_others proxy_allow_http r0) as [Fm [Fh [Fmaj [Fmin [Fcl [Frem Furl]]]]]]. fold rf in Fm, Fh, Fmaj, Fmin, Fcl, Frem, Furl.
@@ -328,7 +338,7 @@ Section E2E.
       - apply R1none; reflexivity.
       - cbn [q_hdr set_hdr]. apply raw_get_h_set_same. reflexivity. }
     assert (OUT : forall k, mem k excluded_on_write = false -> k <> k_ae -> k <> k_connection -> k <> k_upgrade ->
-                  raw_get k (transport_hdr x r') = raw_get k (q_hdr r1)).
+                  raw_get k (transport_hdr0 x r') = raw_get k (q_hdr r1)).
     { intros k A B C D. rewrite transport_get_plain by assumption. apply Rk; assumption. }
     split; [reflexivity|]. split.
     { rewrite Rs, Rh, Isch, Iho, Fs, Fh, Eho. unfold sent_path_query, sent_scheme. fold (parse_target (xi_target x)).
@@ -435,6 +445,17 @@ Section E2E.
     destruct (str_eqb k k_te) eqn:K10.
     { apply str_eqb_eq in K10. subst k. rewrite transport_te. destruct (xi_framing x =? 2); apply opt_vals_eqb_eq; reflexivity. }
     apply str_eqb_neq in K10.
+    (* Trailer: nothing announced, nothing written *)
+    destruct (str_eqb k k_trailer) eqn:K13.
+    { apply str_eqb_eq in K13. subst k.
+      assert (TN : raw_get k_trailer (transport_hdr0 x r') = None).
+      { unfold transport_hdr0. cbv zeta.
+        repeat match goal with
+        | |- context [if ?c then _ else _] => destruct c
+        | |- context [match raw_get k_ua ?h with _ => _ end] => destruct (raw_get k_ua h) as [[|? ?]|]
+        end; through_sets. }
+      rewrite TN, Tr2. reflexivity. }
+    apply str_eqb_neq in K13.
     (* Connection *)
     destruct (str_eqb k k_connection) eqn:K11.
     { apply str_eqb_eq in K11. subst k. rewrite transport_conn. unfold upgrade_requested. rewrite <- UPE.
@@ -454,17 +475,9 @@ Section E2E.
     { unfold mem, doc_keys. cbn [existsb].
       repeat match goal with X : k <> _ |- _ => apply str_eqb_neq in X; rewrite ?X end. reflexivity. }
     destruct (mem k excluded_on_write) eqn:EX.
-    - (* only Trailer is left of the names net/http does not write from the map *)
-      assert (KT : k = k_trailer).
-      { unfold mem, excluded_on_write in EX. cbn [existsb] in EX.
-        apply str_eqb_neq in K1, K7, K9, K10. rewrite K1, K7, K9, K10 in EX. cbn [orb] in EX.
-        rewrite orb_false_r in EX. apply str_eqb_eq in EX. exact EX. }
-      subst k. rewrite is_removed_listed by reflexivity.
-      unfold transport_hdr. cbv zeta.
-      repeat match goal with
-      | |- context [if ?c then _ else _] => destruct c
-      | |- context [match raw_get k_ua ?h with _ => _ end] => destruct (raw_get k_ua h) as [[|? ?]|]
-      end; through_sets.
+    - (* every name net/http does not write from the map has been dealt with *)
+      exfalso. unfold mem, excluded_on_write in EX. cbn [existsb] in EX.
+      apply str_eqb_neq in K1, K7, K9, K10, K13. rewrite K1, K7, K9, K10, K13 in EX. discriminate EX.
     - rewrite OUT by assumption. rewrite (PL k ND), after_removal_get.
       destruct (is_removed k (hin_of x)); apply opt_vals_eqb_eq; reflexivity.
   Qed.
@@ -476,12 +489,14 @@ Section E2E.
     own_sub (xi_tag x) (raw_values via_key (after_removal (hin_of x))) = true /\ st = 400.
   Proof.
     intros W H FC. unfold wf_x in W. cbv zeta in W.
+    apply andb_true_iff in W as [W Wtr2]. apply andb_true_iff in W as [W Wtr1].
+    assert (Tr1 : trailer_decl (xi_framing x) (fields_to_hmap (xi_fields x)) = []) by (destruct (trailer_decl _ _); [reflexivity | discriminate]).
     apply andb_true_iff in W as [W Wae]. apply andb_true_iff in W as [W Wua]. apply andb_true_iff in W as [W Wxfp].
     apply andb_true_iff in W as [W Wmode2]. apply andb_true_iff in W as [W Wclf]. apply andb_true_iff in W as [W Wm].
     apply andb_true_iff in W as [W Wf]. apply andb_true_iff in W as [W Wprag]. apply andb_true_iff in W as [W Wesc].
     apply andb_true_iff in W as [W Wconn]. apply andb_true_iff in W as [W Wip2]. apply andb_true_iff in W as [W Wip].
     apply andb_true_iff in W as [W Wmin]. apply andb_true_iff in W as [Wtag Wmaj].
-    destruct (read_request_shape x Wprag Wesc) as [r0 [ER [Eh _]]].
+    destruct (read_request_shape x Tr1 Wprag Wesc) as [r0 [ER [Eh _]]].
     unfold e2e_model, e2e_model_cfg in H. rewrite ER in H.
     change (handle_request_cfg no_cfg (xi_tag x) r0) with (handle_request (xi_tag x) r0) in H.
     destruct (handle_request (xi_tag x) r0) as [s|r'] eqn:EH.
